@@ -26,7 +26,8 @@ ASSUMPTIONS = ["the per-case results recorded at the evaluation-function seam ar
                "recomputed from (the property is about aggregation, not about the power flow itself)",
                "ties within 1e-6 relative accept any maximiser as cause", "nets <= 14 buses, <= 12 cases"]
 REACH_PROBES = ["own_outage_first", "case_failed_natural", "case_failed_callback", "raise_errors_propagated",
-                "injected_in_loop", "second_order_checked", "some_branch_overloaded"]
+                "injected_in_loop", "second_order_checked", "some_branch_overloaded", "n1_case_recomputed",
+                "separate_n0_n1_options", "recycle_option_passed"]
 
 TEMPLATES = [("case9", 4), ("feeder", 3), ("case14", 2), ("feeder_t3w", 2), ("cigre_mv", 1), ("feeder_taptable", 1)]
 
@@ -69,7 +70,15 @@ def generate(rng, idx, tier):
               "write_to_net": rng.random() < 0.8,
               "fail_at": sorted(rng.sample(range(1, 12), rng.choice([0, 0, 1, 2]))),
               "pf": rng.choice([{}, {}, {"max_iteration": 6}, {"algorithm": "iwamoto_nr"}, {"numba": False}]),
-              "perm_seed": rng.randrange(1 << 30)}
+              "perm_seed": rng.randrange(1 << 30),
+              # separate options for the N-0 run and the N-1 runs, the evaluation function, the recycle option
+              # as run_timeseries passes it on (must be neutralised), the form of the case index
+              "pf_n0": rng.choice([None, None, None, {"trafo_model": "pi"}, {"tolerance_mva": 1e-6}]),
+              "pf_n1": rng.choice([None, None, None, {"trafo_model": "pi"}, {"tolerance_mva": 1e-6},
+                                   {"trafo_loading": "power"}]),
+              "eval": rng.choice(["runpp", "runpp", "runpp", "rundcpp"]),
+              "recycle_kw": rng.random() < 0.15,
+              "index_form": rng.choice(["list", "list", "array", "pd_index", "tuple"])}
         if rng.random() < 0.15:
             op["fault"] = c08.gen_fault(rng, ["InjectedFault", "KeyboardInterrupt"])
         ol.append(op)
@@ -119,9 +128,10 @@ def build_case_dict(net, cases):
 class Recorder:
     """recording wrapper around the real runpp; keeps __name__ == 'runpp'"""
 
-    def __init__(self, net, ctx, fail_at=()):
+    def __init__(self, net, ctx, fail_at=(), fn="runpp"):
         import pandapower as pp
         self.pp = pp
+        self.fn = pp.rundcpp if fn == "rundcpp" else pp.runpp
         self.ctx = ctx
         self.fail_at = set(fail_at)
         self.base = {et: net[et].in_service.values.copy() for et in BRANCHES}
@@ -140,7 +150,8 @@ class Recorder:
                 d = np.flatnonzero(cur != self.base[et])
                 if len(d):
                     case = (et, int(net[et].index[d[0]]))
-        rec = {"seq": seq, "n": self.n, "case": case, "raised": None, "res": None, "kw": sorted(kw)}
+        rec = {"seq": seq, "n": self.n, "case": case, "raised": None, "res": None, "kw": sorted(kw),
+               "kwv": {k_: v_ for k_, v_ in kw.items() if k_ != "raise_errors"}}
         self.calls.append(rec)
         if self.n in self.fail_at:
             rec["raised"] = "callback-fail"
@@ -148,7 +159,7 @@ class Recorder:
             raise LoadflowNotConverged(f"ppsim: planned failure of evaluation #{self.n}")
         kw.pop("raise_errors", None)
         try:
-            self.pp.runpp(net, **kw)
+            self.fn(net, **kw)
         except Exception as e:
             rec["raised"] = type(e).__name__
             raise
@@ -334,23 +345,45 @@ def _exec_contingency(net, op, i, ctx):
             elif net[et]["max_loading_percent"].isna().any():
                 net[et]["max_loading_percent"] = net[et]["max_loading_percent"].fillna(100.)
     snap = oracles.snapshot(net)
-    rec = Recorder(net, ctx, op.get("fail_at") or [])
+    ev = op.get("eval", "runpp")
+    rec = Recorder(net, ctx, op.get("fail_at") or [], fn=ev)
     for _ in op.get("fail_at") or []:
         ctx.fault_configured("callback-fail")
     kw = dict(op["pf"])
+    if ev == "rundcpp":
+        kw = {k_: v_ for k_, v_ in kw.items() if k_ in ("numba",)}
     if op["raise_errors"]:
         kw["raise_errors"] = True
-    call = lambda: run_contingency(net, copy.deepcopy(case_dict), write_to_net=op["write_to_net"],
-                                   contingency_evaluation_function=rec, **kw)
+    if op.get("recycle_kw"):
+        kw["recycle"] = {"bus_pq": True, "trafo": False, "gen": False}
+        ctx.probe("recycle_option_passed")
+    opt = {}
+    pf_n0 = op.get("pf_n0") if ev == "runpp" else None
+    pf_n1 = op.get("pf_n1") if ev == "runpp" else None
+    if pf_n0 is not None or pf_n1 is not None:
+        # (pandapower falls back to net.user_pf_options for a dict that is not given: both are given)
+        opt = {"pf_options": dict(pf_n0 or {}), "pf_options_nminus1": dict(pf_n1 or {})}
+        ctx.probe("separate_n0_n1_options")
+    form = op.get("index_form", "list")
+
+    def shaped(cd):
+        out = copy.deepcopy(cd)
+        for et_, v_ in out.items():
+            ix = v_["index"]
+            v_["index"] = np.array(ix, dtype=np.int64) if form == "array" else pd.Index(ix) if form == "pd_index" \
+                else tuple(ix) if form == "tuple" else list(ix)
+        return out
+    call = lambda: run_contingency(net, shaped(case_dict), write_to_net=op["write_to_net"],
+                                   contingency_evaluation_function=rec, **opt, **kw)
     fired = None
     if op.get("fault"):
         f = op["fault"]
         ctx.fault_configured(f"raise@{f['gran']}")
         dry = copy.deepcopy(net)
-        drec = Recorder(dry, _NullCtx(), op.get("fail_at") or [])
+        drec = Recorder(dry, _NullCtx(), op.get("fail_at") or [], fn=ev)
         counter = tracer.Tracer(gran=f["gran"])
-        counter.run(lambda: run_contingency(dry, copy.deepcopy(case_dict), write_to_net=op["write_to_net"],
-                                            contingency_evaluation_function=drec, **kw))
+        counter.run(lambda: run_contingency(dry, shaped(case_dict), write_to_net=op["write_to_net"],
+                                            contingency_evaluation_function=drec, **opt, **kw))
         index = tracer.resolve_plan(counter, f)
         if index is None:
             res, exc = c08._plain_call(call)
@@ -408,9 +441,45 @@ def _exec_contingency(net, op, i, ctx):
         return
     failed_present = bool(failed)
     sigs += check_result(net, res, rec, case_dict, op, i, ctx, own_first, failed_present)
+    import pandapower as pp_
+    run_fn = pp_.rundcpp if ev == "rundcpp" else pp_.runpp
+    plain_kw = {k_: v_ for k_, v_ in kw.items() if k_ not in ("raise_errors", "recycle")}
+    kw_n0 = dict(pf_n0 or {}, **plain_kw)
+    kw_n1 = dict(pf_n1 or {}, **plain_kw)
+    # option routing: every evaluation received exactly the options of its kind (recycle switched off)
+    for c in rec.calls:
+        want_kw = kw_n0 if c["case"] is None else kw_n1
+        got_kw = {k_: v_ for k_, v_ in c["kwv"].items() if k_ != "recycle"}
+        if got_kw != want_kw or c["kwv"].get("recycle", False) is not False:
+            sig = f"C14|options:{'N-0' if c['case'] is None else 'N-1'} evaluation received other options"
+            sigs.append(sig)
+            ctx.violation(sig, f"op{i}: evaluation #{c['n']} (case {c['case']}) received {c['kwv']}, expected "
+                               f"{want_kw} with recycle off", op=i)
+            break
+    # the extremes are built from evaluations of the true N-1 states: two seeded cases are re-evaluated on a
+    # scrubbed copy with that element out of service and compared with what the evaluation seam recorded
+    import random as _r
+    ok_cases = [c for c in rec.calls if c["case"] is not None and c["res"] is not None]
+    for c in _r.Random(op["perm_seed"]).sample(ok_cases, min(2, len(ok_cases))):
+        et_, ix_ = c["case"]
+        probe = oracles.scrubbed_copy(net)
+        probe[et_].at[ix_, "in_service"] = False
+        _, pe = c08._plain_call(lambda: run_fn(probe, **kw_n1))
+        if pe is not None:
+            continue
+        ctx.probe("n1_case_recomputed")
+        for t_ in c["res"]:
+            want_v = probe.res_bus.vm_pu.values if t_ == "bus" else probe[f"res_{t_}"].loading_percent.values
+            d_ = oracles.compare_arrays(np.asarray(c["res"][t_], dtype=float), want_v, 5e-5, 5e-5)
+            if d_:
+                sig = f"C14|N-1 evaluation differs from a fresh power flow of that outage:{t_}"
+                sigs.append(sig)
+                ctx.violation(sig, f"op{i}: case {c['case']}: {t_} values seen by the analysis differ from a fresh "
+                                   f"{ev} with that element out of service: {d_[0]} {d_[1]}", op=i)
+                break
     # N-0 equals a plain power flow on a scrubbed copy
     ref = oracles.scrubbed_copy(net)
-    _, e0 = c08._plain_call(lambda: __import__("pandapower").runpp(ref, **op["pf"]))
+    _, e0 = c08._plain_call(lambda: run_fn(ref, **kw_n0))
     n0_ok = [c for c in rec.calls if c["case"] is None and c["res"] is not None]
     if e0 is None and n0_ok:
         for t in ["bus"] + [et for et in BRANCHES if len(net[et])]:
@@ -452,9 +521,9 @@ def _exec_contingency(net, op, i, ctx):
     for et, ix in flat:
         cd2.setdefault(et, {"index": []})["index"].append(ix)
     net2 = oracles.scrubbed_copy(net)
-    rec2 = Recorder(net2, _NullCtx(), [])
+    rec2 = Recorder(net2, _NullCtx(), [], fn=ev)
     res2, exc2 = c08._plain_call(lambda: run_contingency(net2, cd2, write_to_net=False,
-                                                         contingency_evaluation_function=rec2, **op["pf"]))
+                                                         contingency_evaluation_function=rec2, **opt, **plain_kw))
     if exc2 is None and not failed_present:
         ctx.probe("second_order_checked")
         for t in res:
